@@ -37,6 +37,8 @@ def ws2dpgu(y, lmda, nodata, p, out):
         n = np.sum(w)
 
         if n > 1:
+            # cells without weight must not reach the solver (0 * nan = nan)
+            y = np.where(w == 0, 0.0, y)
             p1 = 1 - p
             z = np.zeros(m)
             znew = np.zeros(m)
